@@ -12,10 +12,10 @@ from verif import h
 
 PROPERTY = "C03"
 B = h.bounds(
-    quick=dict(NB=2, NK=7, FLOW=3, BUF=2, J=1, ZN=2, ENB=2),
-    thorough=dict(NB=3, NK=8, FLOW=4, BUF=4, J=3, ZN=3, ENB=3),
+    quick=dict(NB=2, NK=8, FLOW=3, BUF=2, J=1, ZN=2, ENB=2),
+    thorough=dict(NB=3, NK=9, FLOW=4, BUF=4, J=3, ZN=3, ENB=3),
 )
-BOUNDS = dict(vars(B), meaning="<= NB branches over NK of 8 branch kinds (source, fill/compute, "
+BOUNDS = dict(vars(B), meaning="<= NB branches over NK of 9 branch kinds (an explicit Sequence object holding an accumulator - a plain per-block Sequence, not a fill/compute branch -, source, fill/compute, "
               "stopping fill/compute, fill/request, stopping fill/request, per-value sequence, "
               "sequence with end-of-block marker, filter sequence); flow length <= FLOW of "
               "symbolic ints; bufsize in 1..BUF, 1000, None; LenaStopFill at fill index <= J; "
@@ -32,7 +32,7 @@ ASSUMPTIONS = ["branches are built from the harness vocabulary (Tag/Gen/FR user 
                "itertools.islice realised on concrete bufsize values"]
 OUTSIDE = ["branches containing Cache", "nested Split deeper than 1", "more than NB branches"]
 
-NKINDS = 8
+NKINDS = 9
 
 
 class Tag(object):
@@ -105,6 +105,10 @@ def make_branch(kind, t, j):
         return (Tag(t),)
     if kind == 6:
         return EndMark(t)
+    if kind == 7:
+        # an explicit Sequence object is a plain Sequence branch whatever it
+        # contains: run on every block (the accumulator inside keeps summing)
+        return Sequence(Sum(), Tag(t))
     return (lena.flow.Filter(_positive), Tag(t))
 
 
@@ -163,6 +167,10 @@ def ref_split(kinds, j, bufsize, flow):
                 out += [(b, v) for v in block]
             elif k == 6:
                 out += [(b, v) for v in block] + [(b, "end")]
+            elif k == 7:
+                for v in block:
+                    acc[b] += v
+                out.append((b, acc[b]))
             else:
                 out += [(b, v) for v in block if v > 0]
     empty = not flow
@@ -176,6 +184,8 @@ def ref_split(kinds, j, bufsize, flow):
             out.append((b, list(stored[b])))
         elif k == 6 and empty:
             out.append((b, "end"))
+        elif k == 7 and empty:
+            out.append((b, 0))
     return out
 
 
@@ -207,7 +217,7 @@ def check_split_run(nb: int, k0: int, k1: int, k2: int, j: int, bs: int,
     return h.ok(got == want)
 
 
-STATELESS = (0, 3, 5, 6, 7)
+STATELESS = (0, 3, 5, 6, 8)
 
 
 def check_split_rerun(nb: int, k0: int, k1: int, bs: int, explicit: bool, flow: List[int]) -> bool:
@@ -286,15 +296,40 @@ def check_split_once_on_empty(nb: int, k0: int, k1: int, k2: int, bs: int) -> bo
     return h.ok(all([g.calls == 1 for g in srcs]) and all([f.requests == 1 for f in frs]))
 
 
+class AppendTag(object):
+    """Changes its (mutable) value in place."""
+
+    def __init__(self, t):
+        self.t = t
+
+    def __call__(self, v):
+        v.append(self.t)
+        return v
+
+
 def check_common_type(kind: int, nb: int, copy_buf: bool, flow: List[int], j: int) -> bool:
     """
-    pre: 0 <= kind <= 3
+    pre: 0 <= kind <= 4
     pre: 1 <= nb <= 3
     pre: len(flow) <= B.FLOW
     pre: 0 <= j <= B.J
     post: _
     """
     cb = True if copy_buf else False
+    if kind == 4:
+        # all fill/compute, every branch changes the value it is given in
+        # place: with copy_buf (the default) fill + compute means the same as
+        # run - what each branch computes alone on its own copy of the flow
+        if not cb:
+            return True
+        mk = lambda: Split([(AppendTag(t), StoreFilled()) for t in range(nb)], copy_buf=True)
+        s = mk()
+        for x in flow:
+            s.fill([x])
+        got = list(s.compute())
+        want = [[[x, t] for x in flow] for t in range(nb)]
+        ran = list(mk().run(iter([[x] for x in flow])))
+        return h.ok(got == want and ran == want)
     if kind == 0:      # all fill/compute: fill + compute
         s = Split([(Sum(), Tag(t)) for t in range(nb)], copy_buf=cb)
         for v in flow:
@@ -409,7 +444,8 @@ CONDITIONS = [
          smoke=["check_split_once_on_empty(3, 0, 3, 4, 2)"]),
     dict(fn="check_common_type", budget=(60, 400),
          smoke=["check_common_type(0, 2, True, [1, 2], 0)", "check_common_type(1, 2, True, [1, 2, 3], 1)",
-                "check_common_type(2, 3, True, [], 0)", "check_common_type(3, 2, True, [], 0)"]),
+                "check_common_type(2, 3, True, [], 0)", "check_common_type(3, 2, True, [], 0)",
+                "check_common_type(4, 3, True, [1, 2], 0)"]),
     dict(fn="check_zip", shards=(6, 8), budget=(60, 600),
          smoke=["check_zip(0, 2, 2, 1, 0, [4, 5, 6])", "check_zip(1, 2, 3, 2, 0, [4, 5, 6])"]),
 ]
